@@ -32,8 +32,11 @@ fn judge_request(case: &NetCase, obs: &Obs, id: usize) -> Option<(String, String
             // the owner being served by a released HTTP/1 connection (pre-emption; needs HTTP/1 and
             // HTTP/2 requests to the same origin)
             let my_version = request_version(case, spec);
+            // (a redirected request also visits its redirect target, and redirected requests visit this origin)
+            let mine: Vec<usize> = std::iter::once(srv).chain(redirect_target(case, spec)).collect();
             let others_cancelled = case.reqs.iter().enumerate().any(|(j, r)| {
-                j != id && r.server as usize % nsrv == srv && (r.cancel_at.is_some() || request_version(case, r) != my_version)
+                let theirs = std::iter::once(r.server as usize % nsrv).chain(redirect_target(case, r));
+                j != id && theirs.into_iter().any(|t| mine.contains(&t)) && (r.cancel_at.is_some() || request_version(case, r) != my_version)
             });
             if e.contains("pool closed, no connection can be made") && case.pool.as_ref().map(|p| !p.cont).unwrap_or(false) && others_cancelled {
                 Some(("unavailable-after-abandoned-dial/cont=false".into(), format!("{desc} failed at {t} ms with `{e}` because the request whose HTTP/2 dial it waited on was cancelled (continue_after_preemption=false)")))
@@ -668,6 +671,9 @@ pub fn run(ctx: &Ctx) -> i32 {
             if rf.engine == "socksrv" {
                 return replay_one(ctx, &crate::engines::socksrv::SockEngine, &rf);
             }
+            if rf.engine == "tcpe2e" {
+                return replay_one(ctx, &crate::engines::tcpe2e::TcpE2eEngine, &rf);
+            }
             if rf.engine == "dupstream" {
                 return replay_one(ctx, &crate::engines::socksrv::DupStreamEngine, &rf);
             }
@@ -705,6 +711,11 @@ pub fn run(ctx: &Ctx) -> i32 {
             total.merge(run_generated(ctx, &engine, "concurrent-requests", move || ordered(c01_strategy(max_reqs)), ctx.cases(30_000, 1_500_000), 300));
             // upgrade-heavy leg: half of the requests ask for a protocol upgrade (101 + raw exchange)
             total.merge(run_generated(ctx, &engine, "upgraded-connections", move || c01_strategy_up(max_reqs.min(10), 4), ctx.cases(8_000, 400_000), 300));
+            // the default Client (Client::build_tcp_http) over real TCP against a real Server
+            {
+                let tctx = Ctx { threads: 8, ..ctx.clone() };
+                total.merge(run_generated(&tctx, &crate::engines::tcpe2e::TcpE2eEngine, "default-client-over-tcp", crate::engines::tcpe2e::strategy, ctx.cases(150, 6_000), 40));
+            }
             // pool-level leg: every uncancelled request of a fault-free poolsim history must succeed
             {
                 use crate::engines::poolsim as ps;
